@@ -49,8 +49,13 @@ fn const_input(m: &MDesc, v: f64, rng: &mut Rng) -> Option<In> {
 			if !(p > 0.0) || !(p * 1.5).is_finite() {
 				return None;
 			}
-			let (o, h, l, c) = match rng.below(4) {
+			// the next representable value above p (in the crate's ValueType): a candle whose range is one ulp
+			let up = V::from_bits((p as V).to_bits() + 1) as f64;
+			let lo = (p as V) as f64;
+			let (o, h, l, c) = match rng.below(6) {
 				0 => (p, p, p, p),
+				4 => (lo, up, lo, up),
+				5 => (up, up, lo, lo),
 				1 => (p, gen::q(p * 1.25), gen::q(p * 0.75), gen::q(p * 1.125)),
 				2 => (gen::q(p * 0.9), gen::q(p * 1.1), gen::q(p * 0.9), gen::q(p * 1.1)),
 				_ => (gen::q(p * 1.01), gen::q(p * 1.02), gen::q(p * 0.5), gen::q(p * 0.5)),
